@@ -257,6 +257,19 @@ def check_values(rec: Rec, cfg):
 
 
 
+def check_deep(rec: Rec):
+    """== on trees 3000 levels deep (beyond the interpreter's recursion limit): equal chains, and chains whose origins differ
+    only at the bottom inner node or at the leaf."""
+    zoo.reset_registry()
+    a, _ = zoo.deep_chain(3000)
+    b, _ = zoo.deep_chain(3000)
+    c, _ = zoo.deep_chain(3000, bottom_origin=zoo.O_A01)
+    d, _ = zoo.deep_chain(3000, leaf_origin=zoo.O_B01)
+    for (na, x), (nb, y), exp in ((("a", a), ("b", b), True), (("a", a), ("c", c), False), (("a", a), ("d", d), False), (("c", c), ("d", d), False), (("c", c), ("c", c), True)):
+        rec.count("states")
+        compare(rec, x, y, exp, {"deep_chain": True, "a": na, "b": nb}, "deep-chain")
+
+
 def run_shard(cfg):
     rec = Rec(cfg)
     # configuration dimension: every third shard runs with runtime type checking on (all inputs are well typed,
@@ -280,6 +293,8 @@ def run_shard(cfg):
     small = [d for n in range(1, cfg["npair"] + 1) for d in U.trees(n)]
     check_pairs(U, small, rec, cfg)
     check_values(rec, cfg)
+    if cfg["k"] == 5 % cfg["of"]:
+        check_deep(rec)
     rec.bound = {"max_nodes": cfg["n"], "pairs_and_triples_up_to_nodes": cfg["npair"]}
     return rec.result()
 
@@ -289,7 +304,9 @@ def replay(case, cfg):
     U = zoo.universe(UNIV)
     cfg = dict(cfg)
     cfg.setdefault("npair", 3)
-    if case.get("lookalike"):
+    if case.get("deep_chain"):
+        check_deep(rec)
+    elif case.get("lookalike"):
         check_values(rec, dict(cfg, k=0, of=1))
     elif "tree_b" in case:
         zoo.reset_registry()
